@@ -21,6 +21,7 @@ RULE = ('scoping scenarios: programs of 2-9 statements over a small pool of name
         'distinct = distinct (program text, ast_names body).')
 RULE += ' Host callback reenter(k) evaluates another program on the same parser with its own names while the call is in flight (reference side: R2).'
 RULE += ' Host values include a wildcard object equal to everything and one equal to nothing (falsy), also bound over the builtin max and passed as lambda arguments.'
+RULE += " One more workload: the repository's own test-suite, run in a worker process against the sandbox copy with this check's monitors installed (the tests' assertions are not the oracle, the monitors are)."
 ASSUMPTIONS = ['R2 (lib/refeval.py) defines the expected result and host names: innermost-first resolution, top-level assignments written to the host mapping, parameters and '
                'lambda-local assignments vanish with the call',
                'try_(f, args...) is a host callback that calls the program lambda and swallows any Exception']
